@@ -150,19 +150,35 @@ pub uninterp spec fn last_poll<T>(q: Receiver<T>) -> Poll<Result<T, RecvError>>;
 pub fn recv_poll<T>(q: &mut Receiver<T>, cx: &mut Context<'_>) -> (r: Poll<Result<T, RecvError>>)
     ensures r == last_poll(*final(q))
 { unimplemented!() }
-// Event::push_to (src/event.rs; the same text as write_to on a Vec<u8>, compared byte for byte with write_to by c11) -- assumed:
-// it appends the UTF-8 form of the event's block
-pub uninterp spec fn delivered_form(e: Event) -> Seq<u8>;
+// ---- Event::push_to (src/event.rs) at the byte level.  Rule R9 expands `write!(buf, LIT, args..).unwrap()` on the Vec<u8> into the
+// calls below (assumed meaning of std's formatting: the literal pieces and the arguments' Display output -- for a string its
+// UTF-8 form, `utf8` -- appended in order; writing to a Vec cannot fail); the literal pieces are the constants vlit_<hex>()
+// generated from the literal tokens
+pub trait VDisp { spec fn disp(&self) -> Seq<u8>; }
+impl<'a> VDisp for &'a str { open spec fn disp(&self) -> Seq<u8> { utf8(self@) } }
+impl VDisp for String { open spec fn disp(&self) -> Seq<u8> { utf8(self@) } }
+impl<'a> VDisp for &'a String { open spec fn disp(&self) -> Seq<u8> { utf8(self@) } }
 #[verifier::external_body]
-pub broadcast proof fn axiom_delivered_form(e: Event)
-    ensures #[trigger] delivered_form(e) == utf8(enc(e)) || delivered_form(e) == utf8(enc(e) + lf())
-{}
-impl Event {
-    #[verifier::external_body]
-    pub fn push_to(&self, buf: &mut Vec<u8>)
-        ensures final(buf)@ == old(buf)@ + delivered_form(*self)
-    { unimplemented!() }
+pub fn vw_lit(v: &mut Vec<u8>, lit: &str, Ghost(b): Ghost<Seq<u8>>)
+    ensures final(v)@ == old(v)@ + b
+{ unimplemented!() }
+#[verifier::external_body]
+pub fn vw_arg<T: VDisp>(v: &mut Vec<u8>, x: &T)
+    ensures final(v)@ == old(v)@ + x.disp()
+{ unimplemented!() }
+// (rule R9 also expands the format! of Event::custom's error text: its content stays unspecified)
+#[verifier::external_body]
+pub fn vf_new() -> String { unimplemented!() }
+#[verifier::external_body]
+pub fn vf_lit(s: &mut String, lit: &str, Ghost(b): Ghost<Seq<u8>>) { unimplemented!() }
+#[verifier::external_body]
+pub fn vf_arg<T: VDisp>(s: &mut String, x: &T) { unimplemented!() }
+// the block as bytes: `event: ` utf8(T) LF iff typed, then `data: ` utf8(L) LF per line -- the byte form of enc(e), piece by piece
+pub open spec fn data_fields_b(ls: Seq<Seq<char>>) -> Seq<u8> decreases ls.len() {
+    if ls.len() == 0 { Seq::empty() } else { data_fields_b(ls.drop_last()) + (vlit_646174613a20() + utf8(ls.last()) + vlit_0a()) }
 }
+pub open spec fn type_field_b(e: Event) -> Seq<u8> { match ev_type(e) { None => Seq::empty(), Some(t) => vlit_6576656e743a20() + utf8(t) + vlit_0a() } }
+pub open spec fn delivered_form(e: Event) -> Seq<u8> { type_field_b(e) + data_fields_b(lines_of(ev_data(e))) }
 pub trait SseRead {
     spec fn polled(&self) -> Poll<Result<Event, RecvError>>;
     // the bytes of an event that did not fit the previous window and are still to be delivered
